@@ -72,13 +72,13 @@ func SetPluginHandler(h func(call *callable.Call, fn string, arg string) string)
 
 type verifPlugin struct{}
 
-func (p *verifPlugin) GetName() string                         { return "verif" }
-func (p *verifPlugin) GetPrettyName() string                   { return "verification plugin" }
-func (p *verifPlugin) GetEndpoint() string                     { return "inproc" }
-func (p *verifPlugin) GetConnectionState() string              { return "READY" }
-func (p *verifPlugin) GetData(_ []any) string                  { return "" }
-func (p *verifPlugin) Init(_ string) error                     { return nil }
-func (p *verifPlugin) Destroy() error                          { return nil }
+func (p *verifPlugin) GetName() string            { return "verif" }
+func (p *verifPlugin) GetPrettyName() string      { return "verification plugin" }
+func (p *verifPlugin) GetEndpoint() string        { return "inproc" }
+func (p *verifPlugin) GetConnectionState() string { return "READY" }
+func (p *verifPlugin) GetData(_ []any) string     { return "" }
+func (p *verifPlugin) Init(_ string) error        { return nil }
+func (p *verifPlugin) Destroy() error             { return nil }
 func (p *verifPlugin) GetEnvironmentsData(ids []uid.ID) map[uid.ID]string {
 	return map[uid.ID]string{}
 }
